@@ -22,8 +22,7 @@ func floatToString(value float64, bitsize int) string {
 		}
 		return "Infinity"
 	}
-	exponent := math.Log10(math.Abs(value))
-	if exponent >= 21 || exponent < -6 {
+	if abs := math.Abs(value); abs >= 1e21 || abs < 1e-6 {
 		return matchLeading0Exponent.ReplaceAllString(strconv.FormatFloat(value, 'g', -1, bitsize), "$1$2")
 	}
 	return strconv.FormatFloat(value, 'f', -1, bitsize)
